@@ -1,1 +1,2 @@
 pub mod names;
+pub mod numeric_gates;
